@@ -175,19 +175,22 @@ def deep_world(arg):
     root, n1 = make_world(dist, False, False, order)
     cs0 = CoinState.empty().add_block_no_validation(root.block).add_block(n1.block, n1.ts)
     keys = [K[0], K[1]] if korder == 0 else [K[1], K[0]]
-    start = (n1, cs0, frozenset(), frozenset(), (), ())       # node, coinstate, record, used, pending txs, trace
+    # node, coinstate, record, used, pending txs, trace, spends confirmed on the current branch
+    start = (n1, cs0, frozenset(), frozenset(), (), (), ())
     seen = {(n1.bid, frozenset(), frozenset(), ())}
     frontier = [start]
-    stats = {'states': 1, 'transitions': 0, 'success': 0, 'insufficient': 0, 'confirmed': 0}
+    stats = {'states': 1, 'transitions': 0, 'success': 0, 'insufficient': 0, 'confirmed': 0, 'reorganisations': 0}
     bad = []
     for d in range(depth):
         nxt = []
-        for node, cs, rec, used, pending, trace in frontier:
+        for node, cs, rec, used, pending, trace, conf in frontier:
             wouts = wallet_outputs(node)
             vals = sorted(set(wouts.values()))
             avail = sum(v for r, v in wouts.items() if r not in used)
             amts = sorted({a for a in (vals[:1] + vals[-1:] + [avail, max(1, avail - 1)]) if a >= 1})
             ops = [('spend', a, 0) for a in amts] + [('confirm', j) for j in range(min(2, len(pending)))]
+            if conf and not any(t[0] == 'reorg' for t in trace):
+                ops.append(('reorg',))
             for op in ops:
                 stats['transitions'] += 1
                 tr = trace + (op,)
@@ -198,13 +201,29 @@ def deep_world(arg):
                             bad.append((key, what, tr))
                     if tx is None:
                         stats['insufficient'] += 1
-                        s2 = (node, cs, frozenset(after), used, pending, tr)
+                        s2 = (node, cs, frozenset(after), used, pending, tr, conf)
                     else:
                         stats['success'] += 1
                         ins = frozenset((i.output_reference.hash, i.output_reference.index) for i in tx.inputs)
-                        s2 = (node, cs, frozenset(after), used | ins, pending + (tx,), tr)
+                        s2 = (node, cs, frozenset(after), used | ins, pending + (tx,), tr, conf)
                     if viol:
                         continue
+                elif op[0] == 'reorg':
+                    # a competing branch of empty blocks from the funding block overtakes the head: the spends confirmed so
+                    # far are unconfirmed again (and valid again), their inputs are unspent again at the new head - and
+                    # still used by this wallet's earlier spends
+                    cur, cs2 = n1, cs
+                    try:
+                        for i in range(node.height - n1.height + 1):
+                            b = world.assemble(cur, [], K[5], cur.ts + 60, cb_data=b'other branch')
+                            cur = world.Node(b, cur, path=cur.path + ('r',))
+                            cs2 = cs2.add_block(b, cur.ts)
+                    except Exception:
+                        continue
+                    if cs2.current_chain_hash != cur.bid:
+                        continue
+                    stats['reorganisations'] += 1
+                    s2 = (cur, cs2, rec, used, pending + conf, tr, ())
                 else:
                     tx = pending[op[1]]
                     try:
@@ -214,7 +233,7 @@ def deep_world(arg):
                     except Exception:
                         continue          # (conflicts with an already confirmed spend: cannot be mined)
                     stats['confirmed'] += 1
-                    s2 = (n2, cs2, rec, used, pending[:op[1]] + pending[op[1] + 1:], tr)
+                    s2 = (n2, cs2, rec, used, pending[:op[1]] + pending[op[1] + 1:], tr, conf + (tx,))
                 k = (s2[0].bid, s2[2], s2[3], tuple(enc.txid(t) for t in s2[4]))
                 if k not in seen:
                     seen.add(k)
@@ -282,13 +301,13 @@ def run(ctx):
         'samples': [{'world': ws[0][:5], 'attempts_offered_at_every_state': attempt_alphabet(sum(ws[0][0][0]) + sum(ws[0][0][1]), False)[:6]},
                     {'world_with_delayed_confirmations': dws[0][:3], 'operations': ['spend(smallest output)', 'spend(everything available)', 'confirm(0)']}],
         'worlds': len(ws), 'successful_spends': tot['success'], 'insufficient_reports': tot['insufficient'],
-        'confirmations': tot['confirmed'], 'exhaustive': True,
+        'confirmations': tot['confirmed'], 'reorganisations': tot.get('reorganisations', 0), 'exhaustive': True,
         'rule': "worlds = every assignment of <= %d outputs of value 1/2/5 to two wallet keys x foreign output x 10-coin reward "
                 "x output order x key-dictionary order; per world BFS over (head, record of used outputs, outputs used by "
                 "successful spends) with every (amount 1..total+1, fee 0..2) at every state, attempts per path <= %d, "
                 "confirmations <= %d; plus %d worlds explored to %d operations with a reduced amount alphabet (smallest / largest "
-                "output, everything available, one less) and confirmation of ANY still unconfirmed earlier spend as a separate "
-                "operation" % (3 if ctx.quick else 4, ws[0][5], ws[0][6], len(dws), dws[0][3]),
+                "output, everything available, one less), confirmation of ANY still unconfirmed earlier spend as a separate "
+                "operation, and one reorganisation onto a branch without the confirmed spends" % (3 if ctx.quick else 4, ws[0][5], ws[0][6], len(dws), dws[0][3]),
     })
 
 
